@@ -34,36 +34,22 @@ def run(ctx):
             n = sqlc.norm(s)
             if ("from files where name" in n) or (sqlc.kind(s).startswith("insert") and sqlc.table(s) == "files"):
                 by_name.setdefault(b.key, []).append(n)
-    allowed = {"state::File::from_name": "the one name->row function", "state::ProcessState::init": "seed row for //ALWAYS"}
-    for k in sorted(by_name):
-        ctx.ob("R15.1", "who-keys-Files-by-name|%s" % k, k in allowed, where=prog.bodies[k].span, detail="audited: %s" % allowed[k] if k in allowed else "Files is keyed by name outside File::from_name: %s" % by_name[k][:1])
-    ctx.floor("R15.1", "bodies keying Files by name", len(by_name), 2)
+    # WHO keys Files by name: the seed row of init is audited by hand; any other body that does so - File::from_name
+    # today; equally a caller that uses from_name's own normalise-then-look-up steps directly - must itself key the
+    # table by relpath(<a parameter>, env.base()) (or the //ALWAYS constant) in every statement (FLOW, _key_is_relpath):
+    # the condition is on the key, not on the name of the function that holds the statement
+    audited = {"state::ProcessState::init": "seed row for //ALWAYS"}
     fn = prog.one(r"state::File::from_name")
-    fba = BA.of(fn)
-    rel = fba.calls(r"state::relpath")
-    qs = fba.calls(r"rusqlite::Connection::query_row") + fba.calls(r"state::ProcessTransaction::write")
-    ok = False
-    det = "relpath call not found in from_name"
-    if rel:
-        t = fn.blocks[rel[0]]["term"]
-        a1, _, org1 = op_local(t["args"][1]), None, None
-        sl, org, _ = backward_direct(fn, op_local(t["args"][1]))
-        base_ok = any(o[0] == "call" and call_matches(o[2], r"env::Env::base") for o in org)
-        sl0, org0, _ = backward_direct(fn, op_local(t["args"][0]))
-        name_ok = any(l == 2 for l in sl0) or any(o[0] == "call" and any(op_local(a) == 2 for a in o[2]["args"]) for o in org0)
-        # the normalized key: either relpath-derived or the ALWAYS constant; every query parameter derives from it
-        key_t = taint(fn, seeds={t["dest"]["l"]}, mode="derived")
-        always = any(nm and "ALWAYS" in nm for (_, _, s, nm) in str_consts(fn))
-        params_ok = True
-        for q in qs:
-            qt = fn.blocks[q]["term"]
-            pa = [a for a, ty in zip(qt["args"], qt.get("arg_tys", [])) if "ToSql" in ty or "[&dyn" in ty]
-            for a in pa:
-                l = op_local(a)
-                if l is not None and l not in key_t:
-                    params_ok = False
-        ok = base_ok and name_ok and always and params_ok
-        det = "key = relpath(name, env.base()) (or //ALWAYS); all %d statement parameter lists derive from it" % len(qs)
+    for k in sorted(by_name):
+        if k in audited:
+            ctx.ob("R15.1", "who-keys-Files-by-name|%s" % k, True, where=prog.bodies[k].span, detail="audited: %s" % audited[k])
+            continue
+        ok, det = _key_is_relpath(prog.bodies[k])
+        ctx.ob("R15.1", "who-keys-Files-by-name|%s" % k, ok, where=prog.bodies[k].span,
+               detail=("the one name->row function" if k == fn.key else "keys Files by name like File::from_name: " + det) if ok else
+               "Files is keyed by name outside File::from_name without the canonical key (%s): %s" % (det, by_name[k][:1]))
+    ctx.floor("R15.1", "bodies keying Files by name", len(by_name), 2)
+    ok, det = _key_is_relpath(fn)
     ctx.ob("R15.1", "from_name|key-is-relpath(name,base)", ok, where=fn.span, detail=det)
 
     rp = prog.one(r"state::relpath")
@@ -71,14 +57,49 @@ def run(ctx):
     rd = rba.calls(r"state::realdirpath")
     np = rba.calls(r"helpers::normpath")
     comps = rba.calls(r"std::path::Path::components")
-    ok = len(rd) == 2 and len(np) == 2 and bool(comps)
+    # FLOW, per compared value: every value whose components() are compared is (only) a normpath result, and every
+    # normpath operand is (only) a realdirpath result; the realdirpath operands cover both parameters. Stated on the
+    # values, so it does not matter how many call sites there are (one realdirpath+normpath pair per branch, a helper
+    # spliced in three times) nor whether one call dominates the other
+    ok = bool(rd) and bool(np) and bool(comps)
+    why = "realdirpath / normpath / components() calls not all present"
     if ok:
-        ok = all(any(rba.dominates(r, n) for r in rd) for n in np) and all(all(rba.dominates(n, c) for n in np) for c in comps)
-        # normpath's operand derives from a realdirpath result
-        for n in np:
-            sl, org, _ = backward_direct(rp, op_local(rp.blocks[n]["term"]["args"][0]), depth=60)
-            ok = ok and any(o[0] == "call" and call_matches(o[2], r"state::realdirpath") for o in org)
-    ctx.ob("R15.2", "relpath|realdirpath-then-normpath-both-operands", ok, where=rp.span, detail="2x realdirpath -> normpath, all before components()" if ok else "an operand is compared without canonicalising its directory part and cleaning it")
+        reached_rd = set()
+
+        def only_calls(org, rx):
+            return bool(org) and all(k == "call" and call_matches(t, rx) for (k, bb_, t) in org)
+
+        def names(org):
+            return sorted({common.short(callee_paths(t)[0]) if k == "call" else k for (k, bb_, t) in org})
+        for c in comps:
+            # (common.flow_origins: direct steps, Ok/Err halves of the Results on the way kept apart)
+            org = common.flow_origins(rp, op_local(rp.blocks[c]["term"]["args"][0]))
+            if not only_calls(org, r"helpers::normpath"):
+                ok, why = False, "a compared value is not (only) a normpath result: %s" % names(org)
+                break
+            for (k, nbb, nt) in org:
+                org2 = common.flow_origins(rp, op_local(nt["args"][0]))
+                if not only_calls(org2, r"state::realdirpath"):
+                    ok, why = False, "a normpath operand is not (only) a realdirpath result: %s" % names(org2)
+                    break
+                reached_rd.update(bb_ for (k2, bb_, t2) in org2)
+            if not ok:
+                break
+        if ok:
+            # "then": symlinks are resolved on the spelling as given - nothing that realdirpath is applied to has been
+            # cleaned lexically before (`a/link/../b` collapsed to `a/b` names another file than the kernel resolves)
+            cleaned = taint(rp, src_call=lambda t: call_matches(t, r"helpers::normpath"), mode="derived")
+            for r in sorted(reached_rd):
+                a = op_local(rp.blocks[r]["term"]["args"][0])
+                if a in cleaned or any(x in cleaned for x in rba.ref_chain(a)):
+                    ok, why = False, "a path is cleaned by normpath before realdirpath resolves its directory part"
+        if ok:
+            # both operands: some canonicalised value comes from each path parameter of relpath
+            for pn in range(1, rp.arg_count + 1):
+                tl = taint(rp, seeds={pn}, mode="derived")
+                if not any(op_local(rp.blocks[r]["term"]["args"][0]) in tl or any(x in tl for x in rba.ref_chain(op_local(rp.blocks[r]["term"]["args"][0]))) for r in reached_rd):
+                    ok, why = False, "parameter %d of relpath is compared without passing realdirpath and normpath" % pn
+    ctx.ob("R15.2", "relpath|realdirpath-then-normpath-both-operands", ok, where=rp.span, detail="every compared value is normpath(realdirpath(..)) of an operand; both operands covered" if ok else "an operand is compared without canonicalising its directory part and cleaning it (%s)" % why)
     ab = rba.switches_on_call(r"std::path::Path::is_absolute")
     ok = False
     for (sw, t_t, f_t, cbb) in ab:
@@ -101,19 +122,10 @@ def run(ctx):
             if c is not None:
                 ctx.ob("R15.3", "%s|%s|id" % (b.key, k), c == 0, where=ctx.where(b, i), detail="constant lock id %s (0 = broken-locks probe)" % c)
                 continue
-            sl, org, ar = backward_direct(b, op_local(a), depth=120)
-            from_id = any(o[0] == "call" and call_matches(o[2], r"state::File::id|alloc::collections::vec_deque::VecDeque::pop_front") for o in org)
-            params = [l for l in sl if 1 <= l <= b.arg_count and b.locals[l] in ("i64", "core::option::Option<i64>")]
+            from_id, params, ar, named, org = _lock_id_sources(prog, b, op_local(a))
             magic_ok = True
             if ar:
                 # arithmetic allowed only with LOG_LOCK_MAGIC
-                named = set()
-                for l in sl:
-                    for d in ba.defs.get(l, []):
-                        if d[0] == "stmt":
-                            for cc in __import__("core").rvalue_consts(d[3]):
-                                if "named" in cc:
-                                    named.add(cc["named"])
                 magic_ok = any("LOG_LOCK_MAGIC" in x for x in named) and all(x.startswith("Add") for x in ar)
             ok = (from_id or bool(params)) and magic_ok
             ctx.ob("R15.3", "%s|%s|id" % (b.key, k), ok, where=ctx.where(b, i),
@@ -172,3 +184,95 @@ def run(ctx):
         sl, org, _ = backward_direct(ei, v, depth=150)
         ok = any(o[0] == "call" and call_matches(o[2], r"std::path::Path::(parent|ancestors|join|exists)|common_path::.*|std::fs::canonicalize|std::path::Path::canonicalize|std::env::current_dir") for o in org) or len(sl) > 3
         ctx.ob("R15.6", "Env::init|REDO_BASE-is-the-discovered-base", ok, where=ctx.where(ei, st[0]), detail="the exported value derives from the directory walk")
+
+
+def _key_is_relpath(fn):
+    """FLOW(relpath(<parameter>, env.base()) | //ALWAYS  =>  every SQL parameter list of `fn`): (ok, detail).
+    The path operand of relpath goes back (direct steps) to a parameter of `fn` that is not one of the handles
+    (transaction / state / env) nor a flag; the base operand to Env::base(); every statement issued by `fn`
+    (query_row / ProcessTransaction::write) takes its parameters from the relpath result (or the constant)."""
+    from core import OPAQUE_CARRIERS
+    fba = BA.of(fn)
+    rel = fba.calls(r"state::relpath")
+    qs = fba.calls(r"rusqlite::Connection::query_row") + fba.calls(r"state::ProcessTransaction::write")
+    if not rel:
+        return False, "relpath call not found in %s" % fn.key
+    if not qs:
+        return False, "no statement found in %s" % fn.key
+
+    def name_param(l):
+        return l is not None and 1 <= l <= fn.arg_count and not OPAQUE_CARRIERS.fullmatch(fn.locals[l]) and fn.locals[l] != "bool"
+    base_ok = name_ok = True
+    seeds = set()
+    for r in rel:
+        t = fn.blocks[r]["term"]
+        sl, org, _ = backward_direct(fn, op_local(t["args"][1]))
+        base_ok = base_ok and any(o[0] == "call" and call_matches(o[2], r"env::Env::base") for o in org)
+        sl0, org0, _ = backward_direct(fn, op_local(t["args"][0]))
+        name_ok = name_ok and (any(name_param(l) for l in sl0) or any(o[0] == "call" and any(name_param(op_local(a)) for a in o[2]["args"]) for o in org0))
+        seeds.add(t["dest"]["l"])
+    # the normalized key: either relpath-derived or the ALWAYS constant; every query parameter derives from it
+    key_t = taint(fn, seeds=seeds, mode="derived")
+    always = any(nm and "ALWAYS" in nm for (_, _, s, nm) in str_consts(fn))
+    params_ok = True
+    for q in qs:
+        qt = fn.blocks[q]["term"]
+        pa = [a for a, ty in zip(qt["args"], qt.get("arg_tys", [])) if "ToSql" in ty or "[&dyn" in ty]
+        for a in pa:
+            l = op_local(a)
+            if l is not None and l not in key_t:
+                params_ok = False
+    ok = base_ok and name_ok and always and params_ok
+    return ok, ("key = relpath(name, env.base()) (or //ALWAYS); all %d statement parameter lists derive from it" % len(qs) if ok else
+                "base operand is Env::base(): %s; path operand is a parameter: %s; //ALWAYS constant: %s; all statement parameters derive from the key: %s" % (base_ok, name_ok, always, params_ok))
+
+
+def _lock_id_sources(prog, b, l, depth=2):
+    """Where a lock-id operand comes from (direct steps + arithmetic): (from_id, params, arithmetic ops, named
+    constants met, origins). from_id: a File::id() / the locked queue's pop_front; params: i64 parameters of `b`.
+    In a closure / coroutine body a captured i64 stands for the parameter of the `async fn` (or the variable of the
+    enclosing body) it was captured from: it is followed to the operand captured at every construction site in the
+    parent body and decided there, so that `async fn acquire(&self, fid: i64)` is held to what its caller passes."""
+    from core import rvalue_consts, closure_sites, upvar_index, rvalue_places
+    from facts import strip_generics
+    ba = BA.of(b)
+    sl, org, ar = backward_direct(b, l, depth=120)
+    from_id = any(o[0] == "call" and call_matches(o[2], r"state::File::id|alloc::collections::vec_deque::VecDeque::pop_front") for o in org)
+    params = [x for x in sl if 1 <= x <= b.arg_count and b.locals[x] in ("i64", "core::option::Option<i64>")]
+    named = set()
+    ups = set()
+    for x in sl:
+        for d in ba.defs.get(x, []):
+            if d[0] == "stmt":
+                for cc in rvalue_consts(d[3]):
+                    if "named" in cc:
+                        named.add(cc["named"])
+                for p in rvalue_places(d[3]):
+                    u = upvar_index(p)
+                    if u:
+                        ups.add(u[0])
+    ar = list(ar)
+    # the bodies that build this closure: its lexical parent, or - when that was a helper canon.py spliced into its
+    # callers - whoever builds it now
+    makers = [(x, st) for x in prog.bodies.values() for st in closure_sites(x, b.key)] if ups and depth > 0 and b.parent else []
+    if makers:
+        sub_ok = True
+        sub_from_id = False
+        for (parent, (bb, j, dest, k, ops)) in makers:
+            for u in ups:
+                pl = op_local(ops[u]) if 0 <= u < len(ops) else None
+                if pl is None or parent.locals[pl].replace("&", "").replace("mut ", "") not in ("i64", "core::option::Option<i64>"):
+                    continue        # a captured handle (self, state, env): not a number, not part of the id
+                f2, p2, a2, n2, o2 = _lock_id_sources(prog, parent, pl, depth - 1)
+                ar += a2
+                named |= n2
+                org = org + o2
+                if f2 or p2:
+                    sub_from_id = sub_from_id or f2
+                    if p2 and not f2:
+                        params = params + ["captured"]
+                else:
+                    sub_ok = False
+        if sub_ok and sub_from_id:
+            from_id = True
+    return from_id, params, ar, named, org
